@@ -37,7 +37,7 @@ comparator_(comparator),
 allocator_(allocator),
 lg_weight_(lg_weight),
 hra_(hra),
-coin_(false),
+coin_(random_utils::random_bit()),
 sorted_(sorted),
 section_size_raw_(static_cast<float>(section_size)),
 section_size_(section_size),
